@@ -27,6 +27,7 @@ type MerklePatriciaTrie struct {
 	ChangeCollector ChangeCollectorI
 	Version         Sequence
 	missingNodeKeys []Key
+	missingMu       sync.Mutex // guards missingNodeKeys: lookups append to it while holding only the read lock of mutex
 	cache           *statecache.TransactionCache
 	deleteNodes     []Node // delete nodes that added when sync from remote
 }
@@ -76,13 +77,17 @@ func (mpt *MerklePatriciaTrie) getNode(key Key) (n Node, err error) {
 }
 
 func (mpt *MerklePatriciaTrie) addMissingNodeKeys(key Key) {
+	mpt.missingMu.Lock()
 	mpt.missingNodeKeys = append(mpt.missingNodeKeys, key)
+	mpt.missingMu.Unlock()
 }
 
 func (mpt *MerklePatriciaTrie) GetMissingNodeKeys() []Key {
 	mpt.mutex.RLock()
+	mpt.missingMu.Lock()
 	keys := make([]Key, len(mpt.missingNodeKeys))
 	copy(keys, mpt.missingNodeKeys)
+	mpt.missingMu.Unlock()
 	mpt.mutex.RUnlock()
 	return keys
 }
